@@ -148,6 +148,54 @@ def lake_build(targets):
     return rc, out + err
 
 
+GEN_PINNED = os.path.join(VERIF, "tools", "gen_pinned")
+
+
+def build_fallback_driver():
+    """The driver links the regenerated definitions (TF/Gen) next to the hand models.  When a source change makes the
+    regenerated definitions incompatible with the driver (a function the translator now refuses, a changed signature),
+    the driver cannot be built - which must not stop the correspondence check, and must not alarm properties that do
+    not depend on the changed function.  Fallback: build the driver once against the PINNED generated files
+    (tools/gen_pinned, written by tools/mkpins.py from /repo HEAD), keep the binary, restore the regenerated files."""
+    out = os.path.join(WORK, "tfm.pinned")
+    gen_dir = os.path.join(LEAN, "TF", "Gen")
+    if not os.path.isdir(GEN_PINNED):
+        return None, "no pinned generated files"
+    with Lock("lake"):
+        saved = {}
+        try:
+            for fn in os.listdir(GEN_PINNED):
+                if not fn.endswith(".lean"):
+                    continue
+                cur = os.path.join(gen_dir, fn)
+                if os.path.exists(cur):
+                    with open(cur) as f:
+                        saved[cur] = f.read()
+                else:
+                    saved[cur] = None
+                with open(os.path.join(GEN_PINNED, fn)) as f:
+                    pinned = f.read()
+                if saved[cur] != pinned:
+                    with open(cur, "w") as f:
+                        f.write(pinned)
+            rc, o, e = sh(["lake", "build", "tfm"], cwd=LEAN, timeout=3600)
+            if rc == 0:
+                import shutil
+                shutil.copy2(TFM, out)
+        finally:
+            for cur, text in saved.items():
+                if text is None:
+                    if os.path.exists(cur):
+                        os.remove(cur)
+                else:
+                    with open(cur) as f:
+                        now = f.read()
+                    if now != text:
+                        with open(cur, "w") as f:
+                            f.write(text)
+    return (out if rc == 0 else None), (o + e)[-1500:]
+
+
 def parse_lean_errors(log):
     """[(file, line, msg)] from lake / lean output"""
     errs = []
@@ -250,7 +298,7 @@ def run_check(prop, tier, seed):
     module = f"TF.Props.{prop}"
     props_file = os.path.join(LEAN, "TF", "Props", f"{prop}.lean")
     thms = theorems_of(props_file)
-    rc, log = lake_build([module, "tfm"])
+    rc, log = lake_build([module])
     broken = []
     if rc != 0:
         errs = parse_lean_errors(log)
@@ -258,13 +306,21 @@ def run_check(prop, tier, seed):
             broken.append({"file": f, "line": ln, "decl": decl_at(f, ln), "msg": msg[:300]})
         if not errs:
             broken.append({"file": "?", "line": 0, "decl": None, "msg": log[-2000:]})
-    # driver must exist for the correspondence; if the build broke before it was linked, build it alone
+    # the driver is built on its own: a failure there is not a broken obligation of THIS property unless the property's
+    # own theorem module failed too (it imports every generated definition it depends on)
     driver_ok = True
-    if rc != 0:
-        rc2, log2 = lake_build(["tfm"])
-        driver_ok = rc2 == 0
-        if not driver_ok:
-            notes.append("driver build failed: " + log2[-1500:])
+    tfm_bin = TFM
+    rc2, log2 = lake_build(["tfm"])
+    if rc2 != 0:
+        derrs = parse_lean_errors(log2)
+        notes.append("driver does not build with the regenerated definitions (" +
+                     "; ".join(f"{f}:{ln} {msg[:80]}" for (f, ln, msg) in derrs[:3]) + "); using the driver built against the pinned generated files")
+        fb, fblog = build_fallback_driver()
+        if fb:
+            tfm_bin = fb
+        else:
+            driver_ok = False
+            notes.append("fallback driver build failed: " + fblog)
 
     # ---- 3. axiom audit (only meaningful when the module built)
     axioms = {}
@@ -362,7 +418,7 @@ def run_check(prop, tier, seed):
 
         def _run_model():
             with open(ops_path) as fin:
-                return sh([TFM], stdin=fin, timeout=7200)
+                return sh([tfm_bin], stdin=fin, timeout=7200)
         with ThreadPoolExecutor(max_workers=3) as ex3:
             f1, f2, f3 = ex3.submit(_run_impl), ex3.submit(_run_impl_t3), ex3.submit(_run_model)
             rci, iout, ierr = f1.result()
